@@ -17,7 +17,7 @@ from .alg import E, INF, Inf, lift, AlgError, ZERO, ONE
 from .values import *  # noqa: F401,F403
 from .values import (Unsupported, Opaque, UNINIT, IntSym, EnumMember, FuncVal, BoundMethod, Native,
                      Partial, ClassVal, Record, ExcVal, ExtRef, ModuleRef, Guard, Mask, MaskedArray,
-                     keyof, mkarr, cell, full, is_arr)
+                     keyof, mkarr, cell, full, is_arr, SymIdx, SymArr)
 
 
 class ReturnSig(Exception):
@@ -947,6 +947,10 @@ class Interp:
         raise Unsupported(f"assignment target {type(t).__name__}", t)
 
     def store(self, base, idx, v, node, env):
+        if isinstance(base, SymArr):
+            self.emit("store", (id(base), keyof(idx)), node, env)
+            base.mods.append((self.concrete_index(idx, node) if not isinstance(idx, SymIdx) else idx, v))
+            return
         if isinstance(base, np.ndarray):
             m = idx[0] if isinstance(idx, tuple) else idx
             if isinstance(m, Mask):
@@ -1408,6 +1412,10 @@ class Interp:
     def subscript(self, base, idx, n=None):
         if isinstance(base, Opaque):
             return base
+        if isinstance(idx, SymIdx) and isinstance(base, (np.ndarray, SymArr)):
+            return SymArr("take", (base if isinstance(base, SymArr) else base, idx))
+        if isinstance(base, SymArr):
+            return SymArr("item", (base, self.concrete_index(idx, n)))
         if isinstance(base, np.ndarray):
             m = idx[0] if isinstance(idx, tuple) else idx
             if isinstance(m, Mask):
